@@ -6,6 +6,9 @@ NormalizedConstraints.reset/set_constraints/set_gradients.
 Symbolic: the pool points (pairwise separated), every value the optimizer callback returns per pool point,
 constraint bounds and linear coefficients, and the request script itself (which captured callable is
 invoked at which pool point is a solver variable per step).
+EnsembleCase additionally encodes what sits behind the callback: EnsembleOptimizer._optimizer_callback /
+_run_evaluations / _functions_from_results / _gradients_from_results and EnsembleEvaluator.calculate on single
+points and batches (scripted algorithm, affine realizations with symbolic slopes, offsets and weights).
 """
 from __future__ import annotations
 
@@ -298,14 +301,105 @@ class OrderCase(Case):
         return {}
 
 
+class EnsembleCase(Case):
+    """Behind the optimizer callback: the real EnsembleOptimizer + EnsembleEvaluator, driven by a scripted
+    algorithm with single points and batches.  Every returned number is the ensemble value at the requested point."""
+
+    family = "ensemble-callback"
+
+    def __init__(self, cid, *, R=2, C=1, script, parallel=False, split=False):
+        from . import ens
+        self.id, self.R, self.C, self.script, self.parallel, self.split = cid, R, C, tuple(script), parallel, split
+        self.N, self.P = 2, 2
+        self.family = "ensemble-callback/" + ("batch" if parallel else "single")
+        self.points = [np.array([0.25, -0.5]), np.array([-0.75, 0.125]), np.array([0.5, 0.5])]
+        # +-e_j designs: perfectly conditioned perturbation differences
+        D = np.zeros((R, self.P, self.N))
+        for r in range(R):
+            for p in range(self.P):
+                D[r, p, p % self.N] = 1.0 if (r + p) % 2 == 0 else -1.0
+        self.design = D
+        self.cfg0 = ens.ensemble_config(N=self.N, R=R, P=self.P, C=C, lower=-10.0, upper=10.0, x0=list(self.points[0]),
+                                        extra={"optimizer": {"method": "symstub/x", "split_evaluations": split}})
+
+    def describe(self):
+        return f"EnsembleOptimizer callback R={self.R} C={self.C} parallel={self.parallel} split={self.split} script={self.script}"
+
+    def inputs(self, env):
+        R, F, N = self.R, 1 + self.C, self.N
+        w = env.reals("w", R, lo=0, hi=1)
+        for r in range(R):
+            env.assume(w[r] > 0)
+        env.assume(ssum(list(w)) == 1)
+        return {"w": w, "A": env.reals("a", (R, F, N), lo=-BIG, hi=BIG), "c": env.reals("c", (R, F), lo=-BIG, hi=BIG)}
+
+    def run(self, env, inp):
+        from ropt.ensemble_evaluator import EnsembleEvaluator
+        from ropt.optimization import EnsembleOptimizer
+        from . import ens
+
+        cfg = clone_config(self.cfg0)
+        inject(cfg.realizations, weights=env.arr(inp["w"], writeable=False))
+        pm = ens.stub_optimizer_manager()
+        ens.set_samples(lambda sampler: env.const(self.design))
+        ev = ens.AffineEvaluator(env, inp["A"], inp["c"], {}, 1)
+        returned = []
+
+        def script(opt, x0):
+            for pt, fn, gr in self.script:
+                x = env.const(np.vstack([self.points[i] for i in pt])) if isinstance(pt, tuple) else env.const(self.points[pt])
+                returned.append(opt.callback(x, return_functions=fn, return_gradients=gr))
+
+        ens.set_script(script, parallel=self.parallel)
+        ee = EnsembleEvaluator(cfg, None, ev, pm)
+        opt = EnsembleOptimizer(cfg, ee, pm, signal_evaluation=lambda results=None: None)
+        code = opt.start(env.const(self.points[0]))
+        return {"code": code, "returned": returned, "calls": ev.calls}
+
+    def props(self, env, inp, oc):
+        if not oc.ok:
+            return [("no_internal_exception:" + type(oc.exc).__name__, SB(False))]
+        out = oc.value
+        w, A, c = list(inp["w"]), inp["A"], inp["c"]
+        R, F, N = self.R, 1 + self.C, self.N
+        props = [("all_requests_answered", SB(len(out["returned"]) == len(self.script)))]
+
+        def value(f, x):
+            return ssum([w[r] * (c[r, f] + ssum([A[r, f, j] * SR(Fraction(float(x[j]))) for j in range(N)])) for r in range(R)])
+
+        for t, ((pt, fn, gr), (fv, gv)) in enumerate(zip(self.script, out["returned"])):
+            pts = [self.points[i] for i in pt] if isinstance(pt, tuple) else [self.points[pt]]
+            if fn:
+                got = np.asarray(vals(fv), dtype=object)
+                want_shape = (len(pts), F) if isinstance(pt, tuple) else (F,)
+                props.append((f"req{t}.functions_shape", SB(got.shape == want_shape)))
+                if got.shape == want_shape:
+                    got = got.reshape(len(pts), F)
+                    for b, x in enumerate(pts):
+                        for f in range(F):
+                            props.append((f"req{t}.point{b}.function{f}.is_ensemble_value_at_requested_point", close(got[b, f], value(f, x))))
+            if gr:
+                got = np.asarray(vals(gv), dtype=object)
+                props.append((f"req{t}.gradient_shape", SB(got.shape == (F, N))))
+                if got.shape == (F, N):
+                    for f in range(F):
+                        for j in range(N):
+                            props.append((f"req{t}.function{f}.v{j}.gradient_is_ensemble_gradient",
+                                          close(got[f, j], ssum([w[r] * A[r, f, j] for r in range(R)]))))
+        return props
+
+    def observe(self, env, inp, oc):
+        return {}
+
+
 def build_cases(tier):
     cases = []
     k = 0
 
-    def add(**kw):
+    def add(cls=OrderCase, **kw):
         nonlocal k
         k += 1
-        cases.append(OrderCase(f"c07-{k:03d}", **kw))
+        cases.append(cls(f"c07-{k:03d}", **kw))
 
     L = 3
     for spec, split in itertools.product((False, True), repeat=2):
@@ -330,6 +424,12 @@ def build_cases(tier):
     add(method="differential_evolution", nkinds=("lower",), L=3)
     add(method="differential_evolution", nkinds=("both",), L=3, batch=2, speculative=True)
     add(method="differential_evolution", L=3, batch=2)
+    # behind the callback: real EnsembleOptimizer + EnsembleEvaluator, batches over several realizations
+    for kw in (dict(script=(((0, 1), True, False), (2, True, False), ((2, 0), True, False)), parallel=True),
+               dict(R=3, C=0, script=(((1, 2, 0), True, False),), parallel=True),
+               dict(script=((0, True, False), (0, False, True), (1, False, True), (1, True, False), (0, True, True)), split=True),
+               dict(R=3, script=((1, True, True), (2, True, False), (2, False, True)))):
+        add(EnsembleCase, **kw)
     if tier == "thorough":
         for spec, split in itertools.product((False, True), repeat=2):
             add(method="slsqp", speculative=spec, split=split, nkinds=("both",), lkinds=("eq",), L=3)
@@ -345,7 +445,7 @@ META = dict(
     bounds={"quick": "request scripts of length <=3 over {objective, gradient, each normalised constraint value, each constraint Jacobian} x 2-3 pool points, chosen by solver variables; speculative x split_evaluations; slsqp, l-bfgs-b (gradient), nelder-mead, cobyla (gradient-free), differential_evolution (also vectorised batches of 2); N=2",
             "thorough": "scripts of length 4 (5 for the two-callable tnc case), three pool points, two constraints of mixed kinds",
             "outside": "longer scripts; the orders SciPy's algorithms really produce are a subset of the scripts; points closer than 1e-3(1+|x|) but not identical"},
-    stubs=["scipy.optimize.minimize / differential_evolution / Bounds / LinearConstraint / NonlinearConstraint: recorders; the captured callables are invoked by the harness",
+    stubs=["optimizer plug-in `symstub` and sampler plug-in `stub` (EnsembleCase: concrete +-e_j design)", "scipy.optimize.minimize / differential_evolution / Bounds / LinearConstraint / NonlinearConstraint: recorders; the captured callables are invoked by the harness",
            "optimizer callback: returns, for the pool point it is asked about, that point's symbols (the ensemble value is a function of the point)"],
     assumptions=["distinct pool points differ in some coordinate by more than 1e-3*(1+|a|+|b|)"],
     timeout_ms={"quick": 10000, "thorough": 30000},
